@@ -340,7 +340,13 @@ Expect == [k \in 1..W.n |->
               settings |-> Settings(k),                         \* what a package whose settings come from k looks like
               xm |-> [e \in 1..NExcl |-> XMatch(e, k)]]]
 ImplTable == [k \in 1..W.n |-> [src |-> Src(k), all |-> pk[k].all, prefix |-> pk[k].prefix, rec |-> pk[k].rec]]
-CaseRec == [W |-> W, expect |-> Expect, impl |-> ImplTable, patterns |-> ExclPatterns]
+\* A configured package that has no Go files itself AND no sub-package `go list` finds below it names nothing that
+\* could be mocked: the statement promises neither success nor failure for it (reporting it as missing is C09's
+\* business), so the exit status of a run that contains such a package is open.  A container WITH discoverable
+\* sub-packages is an ordinary recursive package: the run must succeed and mock them.
+Barren(k) == W.on[k] /\ ~HasGo(k) /\ ~\E j \in Sub(k) \ {k} : Discoverable(j)
+ContractMayFail == \E k \in 1..W.n : Barren(k)
+CaseRec == [W |-> W, expect |-> Expect, impl |-> ImplTable, patterns |-> ExclPatterns, mayfail |-> ContractMayFail]
 \* a cheap deterministic hash of the world, only used to thin the export (never for a verdict)
 KindNum(kd) == CASE kd = "go" -> 0 [] kd = "test" -> 1 [] kd = "empty" -> 2 [] kd = "tagged" -> 3 [] kd = "testdata" -> 4
                  [] kd = "under" -> 5 [] kd = "dot" -> 6 [] kd = "vendor" -> 7 [] kd = "submod" -> 8
